@@ -202,6 +202,19 @@ pub fn check_case(ctx: &mut Ctx, ps: &mut Parsers, case: &Case, factors: &[f64],
         }
         ctx.count("source_kinds_agree");
     }
+    // the amounts as the SOURCE writes them (reference semantics of the generator): what scaling starts from is part of
+    // the property, a parser that misreads `1 3/2` scales the wrong number "exactly"
+    for (what, key) in [("ingredient", "source_quantities"), ("cookware", "source_cookware_quantities"), ("timer", "source_timer_quantities")] {
+        let Some(qs) = case.params.get(key).and_then(|k| k.as_array()) else { continue };
+        let list = match what { "ingredient" => "ingredients", "cookware" => "cookware", _ => "timers" };
+        let got: Vec<J> = img0[list].as_array().map(|a| a.iter().map(|i| i["quantity"].clone()).collect()).unwrap_or_default();
+        if &got != qs {
+            let k = got.iter().zip(qs).position(|(a, b)| a != b).unwrap_or(got.len().min(qs.len()));
+            ctx.violation(case, "scale", "written_amount_misread", format!("{what} {k}: the source writes {} but the parsed recipe holds {}", qs.get(k).unwrap_or(&J::Null), got.get(k).unwrap_or(&J::Null)));
+            return;
+        }
+        ctx.count("source_amounts_agree");
+    }
     // the declared servings come from the generator's model of the source text (case parameter), not from the
     // library's accessor: "the first declared servings" is part of what is being checked
     let declared: Option<Vec<u32>> = case.params.get("declared_servings").and_then(|v| v.as_array()).map(|a| a.iter().filter_map(|x| x.as_u64().map(|x| x as u32)).collect());
@@ -416,6 +429,11 @@ pub fn run(ctx: &mut Ctx) {
             ("Add @flour{0-2%kg}, @salt{0-1%tsp}, @milk{0-0.5%l}, @x{0-0%g}, @sugar{0-3%oz}, @y{0-2} and @z{0-4%pinch} for ~{0-10%min}.", Extensions::all().bits(), J::Null),
             (">> servings: 4\n>> title: Soup\n>> description: warm\n\nAdd @flour{0-2%kg} and @water{1%l}.\n", Extensions::all().bits(), json!([4])),
             (">> yield: 3|6\n>> cuisine: any\n>> tags: a, b\n\nAdd @flour{300%g} and @water{1-2%cup}.\n", Extensions::all().bits(), json!([3, 6])),
+            // servings written as text with more digits after the leading number
+            ("---\nservings: 6-8 people\n---\n\nMix @flour{600%g} with @eggs{3}.\n", Extensions::all().bits(), json!([6])),
+            (">> servings: 4 (or 2 big ones)\n\nMix @flour{600%g} with @eggs{3}.\n", 0, json!([4])),
+            ("---\nyield: 2 x 9 inch pies | 4 x 9 inch pies\n---\nMix @flour{600%g} with @eggs{3}.\n", Extensions::all().bits(), json!([2, 4])),
+            ("---\nserves: [3 to 4, '6 (8 small)']\n---\nMix @flour{600%g} with @eggs{3}.\n", Extensions::all().bits(), json!([3, 6])),
         ] {
             for conv in ["layered", "bundled"] {
                 let case = Case::new("fixed", text, ext, conv).with(json!({"declared_servings": declared.clone()}));
@@ -441,9 +459,10 @@ pub fn run(ctx: &mut Ctx) {
         // per ingredient: the scaling kind the SOURCE asks for ("linear" / "fixed" / null) by the reference semantics —
         // "not locked with `=`" is a statement about the source text, so the parser's own classification is not trusted
         let kinds: J = sp.expected.as_ref().map(|e| J::Array(e["ingredients"].as_array().map(|a| a.iter().map(|i| i["quantity"]["value"]["type"].clone()).collect()).unwrap_or_default())).unwrap_or(J::Null);
-        let case = Case::new("g1", sp.text.as_str(), ext, conv).with(json!({"declared_servings": declared, "source_kinds": kinds}));
+        let qs = |list: &str| -> J { sp.expected.as_ref().map(|e| J::Array(e[list].as_array().map(|a| a.iter().map(|i| i["quantity"].clone()).collect()).unwrap_or_default())).unwrap_or(J::Null) };
+        let case = Case::new("g1", sp.text.as_str(), ext, conv).with(json!({"declared_servings": declared, "source_kinds": kinds, "source_quantities": qs("ingredients"), "source_cookware_quantities": qs("cookware"), "source_timer_quantities": qs("timers")}));
         let mut factors = vec![2.0, 0.5, 1.0 / 3.0];
-        factors.push(*ctx.rng.pick(&[1.0, 7.0, 1e-6, 1e6]));
+        factors.push(*ctx.rng.pick(&[1.0, 7.0, 1e-6, 1e6, 3000000001.0, 4294967296.5, 1e12]));
         factors.push(ctx.rng.log_uniform(1e-3, 1e3));
         let targets = [1u32, ctx.rng.range(2, 40) as u32];
         check_case(ctx, &mut ps, &case, &factors, &targets);
